@@ -365,7 +365,7 @@ pub fn run(ctx: &mut Ctx) -> (&'static str, String, bool) {
 
     // ordered pairs of codepages + characters shared between pages + random multi-switch strings
     let letters: Vec<char> = tb.safe_by_letter.keys().copied().collect();
-    let n = ctx.tier.pick(20_000u64, 400_000u64);
+    let n = ctx.tier.pick(80_000u64, 4_000_000u64);
     let base = ctx.rng.fork(10);
     let parts: Vec<Part> = (0u64..16)
         .into_par_iter()
